@@ -25,7 +25,7 @@ for name in sorted(os.listdir(sd)):
         continue
     meta_path = os.path.join(d, "meta.json")
     meta = json.load(open(meta_path)) if os.path.exists(meta_path) else {}
-    wt = f"/tmp/verif-seed-{name}"
+    wt = f"/tmp/verif-seed-{os.getpid()}-{name}"
     subprocess.run(["git", "-C", REPO, "worktree", "remove", "--force", wt], capture_output=True)
     subprocess.check_call(["git", "-C", REPO, "worktree", "add", "-q", "--detach", wt, meta.get("base", "HEAD")])
     try:
